@@ -170,16 +170,15 @@ impl BigUint {
 //@ extract src/biguint/convert.rs :: impl ToPrimitive for BigUint :: fn to_u64 props=C08,C04
     fn to_u64(&self) -> /*+*/(r: /*-*/Option<u64>/*+*/)/*-*/
 //+{
-        requires self.wf()
         ensures
-            r is Some <==> self.v() < B(),
-            r is Some ==> r.unwrap() as nat == self.v(),
+            self.wf() ==> (r is Some <==> self.v() < B()),
+            self.wf() && r is Some ==> r.unwrap() as nat == self.v(),
 //+}
     {
 //+{
         let ghost s = self.data@;
         proof {
-            if s.len() >= 2 { lemma_wf_lower(s); lemma_pw_mono(1, (s.len() - 1) as nat); assert(pw(1) == B() * pw(0)); }
+            if self.wf() && s.len() >= 2 { lemma_wf_lower(s); lemma_pw_mono(1, (s.len() - 1) as nat); assert(pw(1) == B() * pw(0)); }
             if s.len() == 1 { lemma_val_single(s[0]); assert(s =~= seq![s[0]]); }
         }
 //+}
@@ -194,7 +193,7 @@ impl BigUint {
                 it.index@ <= 1 || s.len() <= 1,
                 it.index@ == 0 ==> ret == 0 && bits == 0,
                 it.index@ == 1 ==> ret == s[0] && bits == 64,
-                s.len() >= 2 ==> self.v() >= B(),
+                self.wf() && s.len() >= 2 ==> self.v() >= B(),
 //+}
         {
             if bits >= 64 {
@@ -216,16 +215,15 @@ impl BigUint {
 //@ extract src/biguint/convert.rs :: impl ToPrimitive for BigUint :: fn to_u128 props=C08,C04
     fn to_u128(&self) -> /*+*/(r: /*-*/Option<u128>/*+*/)/*-*/
 //+{
-        requires self.wf()
         ensures
-            r is Some <==> self.v() < B() * B(),
-            r is Some ==> r.unwrap() as nat == self.v(),
+            self.wf() ==> (r is Some <==> self.v() < B() * B()),
+            self.wf() && r is Some ==> r.unwrap() as nat == self.v(),
 //+}
     {
 //+{
         let ghost s = self.data@;
         proof {
-            if s.len() >= 3 { lemma_wf_lower(s); lemma_pw_mono(2, (s.len() - 1) as nat); assert(pw(2) == B() * pw(1)); assert(pw(1) == B() * pw(0)); }
+            if self.wf() && s.len() >= 3 { lemma_wf_lower(s); lemma_pw_mono(2, (s.len() - 1) as nat); assert(pw(2) == B() * pw(1)); assert(pw(1) == B() * pw(0)); }
             if s.len() == 1 { lemma_val_single(s[0]); assert(s =~= seq![s[0]]); }
             if s.len() == 2 {
                 assert(valp(s, 2) == valp(s, 1) + (s[1] as nat) * pw(1));
@@ -248,7 +246,7 @@ impl BigUint {
                 it.index@ == 0 ==> ret == 0 && bits == 0,
                 it.index@ == 1 ==> ret == s[0] as u128 && bits == 64,
                 it.index@ == 2 ==> ret as nat == (s[0] as nat) + (s[1] as nat) * B() && bits == 128,
-                s.len() >= 3 ==> self.v() >= B() * B(),
+                self.wf() && s.len() >= 3 ==> self.v() >= B() * B(),
 //+}
         {
             if bits >= 128 {
